@@ -26,6 +26,10 @@ class DeadlockError(BaseException):
     pass
 
 
+class HarnessDrift(Exception):
+    """The code under test no longer has the shape the harness interposes on (never a property verdict)."""
+
+
 class BudgetExceeded(BaseException):
     pass
 
@@ -543,6 +547,7 @@ class Scheduler:
         out = {"outcome": None, "value": None, "exc": None}
         patches = _install(self)
         _Monitor.activate(self)
+        before = set(_rt.enumerate())
         try:
             try:
                 out["value"] = fn()
@@ -570,6 +575,10 @@ class Scheduler:
         finally:
             _Monitor.deactivate(self)
             _uninstall(patches)
+        mine = {t.obj for t in self.threads}
+        rogue = [t.name for t in _rt.enumerate() if t not in before and t not in mine]
+        if rogue:
+            raise HarnessDrift(f"threads were created outside the scheduler's control: {rogue[:5]}")
         out["dead"] = self.dead
         out["steps"] = self.steps
         out["switches"] = self.switches
@@ -935,7 +944,10 @@ def _install(s: Scheduler):
         except Exception:
             continue
         if not hasattr(mod, attr):
-            continue
+            # the module no longer reaches its primitives through `<module>.threading` / `.time`: its threads
+            # would run outside the scheduler's control and every verdict would be meaningless
+            _uninstall(saved)
+            raise HarnessDrift(f"cannot interpose {attr!r} in {modname}: the module has no global of that name")
         new = s.ns if what == "ns" else getattr(s.ns, what)
         saved.append((mod, attr, getattr(mod, attr)))
         setattr(mod, attr, new)
